@@ -243,3 +243,50 @@ obligation('C15-f', 'T1 T3', 'the row index is available when the per-row sub-se
 def c15_g(ctx):
     from .base import zero_is_valid_obligation
     zero_is_valid_obligation(ctx, ['batch_index', 'index_in_batch', 'seed'])
+
+
+@obligation('C15-h', 'T7 T3', 'at every call site the index is the index of the unit being seeded '
+            '(batch, row, round, chain)', floor=5,
+            necessary='another counter as index makes two units share a derived seed, or makes '
+                      'the seed of unit i depend on something other than (seed, i)')
+def c15_h(ctx):
+    f = ctx.fn(GS)
+    sites = [(g, c) for (g, c) in ctx.cg.callers_of(f)
+             if not g.module.name.startswith('elfi.examples')]
+    if len(sites) < 5:
+        ctx.undecided('expected >= 5 call sites of get_sub_seed, found {}'.format(len(sites)))
+    for (g, c) in sites:
+        ex = ctx.ex(g)
+        kws = dict((k.arg, k.value) for k in c.keywords)
+        a1 = c.args[1] if len(c.args) > 1 else kws.get('sub_seed_index')
+        if a1 is None:
+            continue
+        t = ex.term(a1)
+        lp = enclosing_loop(c)
+        role = why = None
+        ok = False
+        # (a) per-chain seeds: the variable of the enclosing loop over the chains
+        if isinstance(lp, ast.For) and isinstance(lp.target, ast.Name) and \
+                match(ex.term(lp.iter), pattern('range(_n)')) is not None:
+            role = 'loop index of the seeded unit'
+            ok = t[0] == 'elem' and t[1] == ex.term(lp.iter)
+            why = 'the index is {} instead of the loop variable `{}` of the units being ' \
+                  'seeded'.format(src(a1), lp.target.id)
+        # (b) a parameter of the function that names the unit
+        elif t[0] == 'param':
+            role = 'index parameter'
+            # the same parameter identifies the unit elsewhere in the function (state / compare)
+            ok = t[1] in g.params
+            why = ''
+        # (c) the row index unpacked from the meta data (phi of the lookup and its 0 fallback)
+        elif contains(t, "_.get('index_in_batch')") or contains(t, "_['index_in_batch']"):
+            role = 'row index from the meta data'
+            ok = True
+        else:
+            role = 'index of the seeded unit'
+            why = 'the index {} is neither a parameter of {}, the loop variable of the seeded ' \
+                  'units nor the row index'.format(src(a1), g.name)
+        ctx.check(ok, g, role, src(a1)[:40], why, fn=g, node=c)
+        # the round / batch parameter must not be shadowed by a lookup of another field
+        if role == 'index of the seeded unit' and not ok:
+            continue
